@@ -507,6 +507,14 @@ def run(prop, replay_file=None):
         if d3 is not None and d3 != d1:
             rep.violation("rerun|warm-data-source", "a run with data-source objects that already served another session differs; "
                           "configuration %s" % es._brief(spec["cfg"]), dict(spec=spec))
+        if i % 2 == 0:
+            after = after_unrelated_session_digest(spec)
+            if after is not None:
+                rep.cov["runs_after_an_unrelated_session"] = rep.cov.get("runs_after_an_unrelated_session", 0) + 1
+                if after != d1:
+                    rep.violation("rerun|after-unrelated-session", "the same backtest gives another result after an unrelated session (same symbols, "
+                                  "other prices) has run in the same interpreter, both using the session's default data handler; configuration %s"
+                                  % es._brief(spec["cfg"]), dict(spec=spec))
         if i % 3 == 2 and not spec.get("wdiv") and spec["cfg"]["market"]:
             two = two_source_digests(spec)
             if two is not None:
@@ -575,6 +583,24 @@ def warm_digest(spec):
         return None
     finally:
         shutil.rmtree(d, ignore_errors=True)
+
+
+def after_unrelated_session_digest(spec):
+    """The same backtest after an UNRELATED session in the same interpreter: same symbols, other prices, both built through
+    the session's own default data handler (QSTRADER_CSV_DATA_DIR) - whatever the first one loaded must not reach the
+    second."""
+    c = json.loads(json.dumps(spec["cfg"]))
+    if spec["alpha"] != "config" or c["alpha"] not in ("fixed", "single") or not c["market"]:
+        return None
+    c["default_dh"] = True
+    other = json.loads(json.dumps(c))
+    other["market"] = dict((a, dict((d, [0 if o == 0 else o + 4000, 0 if cl == 0 else cl + 2000]) for d, (o, cl) in bars.items()))
+                           for a, bars in c["market"].items())
+    try:
+        run_world(dict(spec, cfg=other), 777)
+        return digest_outcome(run_world(dict(spec, cfg=c), 12345))[0]
+    except Exception:
+        return None
 
 
 def two_source_digests(spec, runs=6):
